@@ -7,7 +7,7 @@ spec/seq/Iter.tla (+ PairIter.tla)   I layer: cursor states as coded;  P layer: 
                                      harness/iterdrv replays them on the real iterators (P -> violation, I -> drift)
   3. TRACE  IterTrace / PairIterTrace seeded random deep trees run on the real iterators, judged by TLC
 """
-import json, os, re
+import json, os, re, shutil
 import common
 from common import run_tlc, Scratch, Infra, log
 
@@ -58,20 +58,27 @@ def plan(pid, tier):
                 [dict(shape="d2", width=S, perbase=0), dict(shape="c3", width=S, perbase=0)],
                 dict(batches=2, n=150, depth=6))
     c4 = 5 if pid == "C14" else 2
-    d3 = 4 if pid == "C14" else 3
+    d3 = 4 if pid == "C14" else 2
     return ([dict(shape="d2", width=W), dict(shape="c3", width=S), dict(shape="d3", width=S), dict(shape="c4", width=S)],
             [dict(shape="d2", width=W, perbase=0), dict(shape="c3", width=S, perbase=0),
              dict(shape="d3", width=S, perbase=d3), dict(shape="c4", width=S, perbase=c4)],
-            dict(batches=6, n=400, depth=6))
+            dict(batches=4, n=600, depth=6))
 
 
 def check(run, replay=None):
     pid = run.pid
     if pid not in MOD:
         raise Infra("fam_iter handles C14 and C15, not %s" % pid)
-    binp = common.go_build_test("iterdrv")
-    if replay:
-        return do_replay(run, binp, replay)
+    with Scratch() as bd:
+        # the test binary is copied out of the shared work copy (which other runs rebuild or remove) for the whole run
+        binp = shutil.copy(common.go_build_test("iterdrv"), os.path.join(bd, "iterdrv.test"))
+        if replay:
+            return do_replay(run, binp, replay)
+        return explore(run, binp)
+
+
+def explore(run, binp):
+    pid = run.pid
     mcs, gens, rnd = plan(pid, run.tier)
     cfgk = dict(ext=EXT[pid], univ=UNIV[pid], extra="INVARIANT KeysKept\n" if pid == "C15" else "")
     # ---- 1. MC: the cursor model produces the list semantics on every tree of the bound
@@ -113,7 +120,7 @@ def check(run, replay=None):
 
 # ------------------------------------------------------------------------------------------------ harness runs
 def run_harness(run, binp, test, env, payload):
-    p = common.run_bin(binp, ["-test.run", "^" + test + "$", "-test.timeout", "30m"], env=env, timeout=2400)
+    p = common.run_bin(binp, ["-test.run", "^" + test + "$", "-test.timeout", "30m"], env=env, timeout=2400, cwd=os.path.dirname(binp))
     if p.returncode != 0:
         txt = p.stdout + p.stderr
         crashed = ("panic:" in txt or "fatal error:" in txt) and "golem/trait" in txt and "harnessBug" not in txt
